@@ -94,6 +94,8 @@ def worldOp (st : WSt) (wd : List String) : WSt × String :=
   | "rderr" :: p :: _ => ({ st with w := setRdErr st.w (num p) }, "ok")
   | ["wrerr", p] => ({ st with w := setWrErr st.w (num p) true }, "ok")
   | ["wrerr", p, k] => ({ st with w := setWrErr st.w (num p) (k == "BrokenPipe") }, "ok")
+  -- a transient error: exactly one write fails
+  | ["wrerr1", p, k] => ({ st with w := setWrErrOnce st.w (num p) (k == "BrokenPipe") }, "ok")
   -- a cooperative transport (reads come in pieces, the reader is made to yield in the middle of available data): what a
   -- socket decodes depends on the byte stream only (C02) — no effect in the model
   | ["yieldy", _, _] => (st, "ok")
